@@ -38,7 +38,7 @@ verus! {
 //@item solver/src/min_cost_flow_solver.rs struct MinCostFlowSolver : plain
 //@end
 
-//@skeleton solver/src/min_cost_flow_solver.rs MinCostFlowSolver::solve_for_vehicle_type : let maximal_formation_count; let number_of_vehicles_required; let lower_bound 0; let connection_upper_bound; let capacity = bebd48a1f02f5995
+//@skeleton solver/src/min_cost_flow_solver.rs MinCostFlowSolver::solve_for_vehicle_type : let maximal_formation_count; let number_of_vehicles_required; let lower_bound 0; let connection_upper_bound; let capacity = dccd601da3a9f034
 
 /// the documented stand-in for "no formation limit"
 pub open spec const UNLIMITED_FORMATION: int = 100;
@@ -64,7 +64,7 @@ pub open spec const UNLIMITED_FORMATION: int = 100;
         (r as int) * (self.network.vehicle_types.vehicle_types@[vehicle_type].seats as int) >= (self.network.sp_trip(service_trip).seated as int), // @obl C07.mcf.required_covers_demand
 //@end
 //@frag solver/src/min_cost_flow_solver.rs MinCostFlowSolver::solve_for_vehicle_type : let lower_bound 0 as frag_trip_lower_bound
-//@params number_of_vehicles_required: LowerBound, maximal_formation_count: UpperBound
+//@params number_of_vehicles_required: LowerBound, maximal_formation_count: UpperBound, maximal_formation_count_for_vehicle_type: UpperBound
 //@ret (r: LowerBound)
 //@sig
     ensures
